@@ -33,6 +33,12 @@ import (
 const db = "r3"
 const baseT = int64(1_700_000_000) * 1_000_000_000
 
+// The partition holds two shards: the writers' series live in the shard group of baseT, one
+// more series (tag w=3, written only by the nemesis) lives 30 days earlier.
+const coldT = baseT - 30*24*3600*1_000_000_000
+const coldWriter = 3
+const killAfterIdle = "kill-after-idle-shard-flush"
+
 var clock int64
 
 func tick() int64 { return atomic.AddInt64(&clock, 1) }
@@ -76,7 +82,7 @@ func (r *recorder) watched(w int) []key {
 }
 
 type fault struct {
-	Kind   string `json:"kind"`            // kill | pause | kill-during-flush
+	Kind   string `json:"kind"`            // kill | pause | kill-during-flush | kill-after-idle-shard-flush
 	Target string `json:"target"`          // leader | follower
 	Point  string `json:"point,omitempty"` // kill-during-flush: the hook point inside the flush at which the store dies
 }
@@ -132,6 +138,7 @@ func (rn *runner) runSchedule(sc schedule, worker int) {
 	rec := &recorder{attempted: map[int][]key{}, seen: map[key]bool{}}
 	tl := &timeline{}
 	var phases []phaseInfo
+	phase, step := 0, 0
 	var valSeq int64
 	newVal := func(client int) int64 { return int64(client)<<32 | atomic.AddInt64(&valSeq, 1) }
 	ws := make([]*writerState, nW)
@@ -164,10 +171,38 @@ func (rn *runner) runSchedule(sc schedule, worker int) {
 			}
 		}
 	}
+	// the nemesis' series in the second shard of the partition
+	coldNext := 0
+	writeCold := func(tries int) bool {
+		k := key{seriesName(coldWriter, 0), coldT + int64(coldNext)*1_000_000_000}
+		coldNext++
+		for try := 0; try < tries; try++ {
+			v := newVal(9)
+			rec.attempt(coldWriter, k)
+			call := tick()
+			res := cl.Front.Write(db, line(coldWriter, 0, k.T, v), nil)
+			ret := tick()
+			o := op{Client: 9, Write: true, Key: k, Val: v, Call: call, Phase: phase, Step: step}
+			if res.Acked() {
+				o.Ret = ret
+				rec.add(o)
+				return true
+			}
+			rec.add(o) // stays open; the next try writes the next timestamp
+			k = key{seriesName(coldWriter, 0), coldT + int64(coldNext)*1_000_000_000}
+			coldNext++
+			time.Sleep(500 * time.Millisecond)
+		}
+		return false
+	}
+	if !writeCold(40) {
+		c.Inconclusive("warm-up-never-acknowledged", 1)
+		return
+	}
 	deadline := time.Now().Add(120 * time.Second)
 	for {
 		res, err := cl.Front.Query(db, "SELECT fi FROM m GROUP BY *", nil)
-		if err == nil && len(res.Results) == 1 && len(res.Results[0].Series) == nW*nSeries {
+		if err == nil && len(res.Results) == 1 && len(res.Results[0].Series) == nW*nSeries+1 {
 			break
 		}
 		if time.Now().After(deadline) {
@@ -176,7 +211,6 @@ func (rn *runner) runSchedule(sc schedule, worker int) {
 		}
 		time.Sleep(300 * time.Millisecond)
 	}
-	phase, step := 0, 0
 	down := -1
 	var unknownWrites, ackedWrites, failedReads, okReads int64
 	// one concurrent phase: writers and readers run `n` operations each; the master / raft
@@ -241,7 +275,7 @@ func (rn *runner) runSchedule(sc schedule, worker int) {
 				defer wg.Done()
 				r := rand.New(rand.NewPCG(c.Seed, uint64(sc.Index*1000+phase*10+5+rd)))
 				for q := 0; q < n; q++ {
-					rn.scan(cl, rec, 100+rd, r.IntN(nW), phase, step, &okReads, &failedReads)
+					rn.scan(cl, rec, 100+rd, r.IntN(nW+1), phase, step, &okReads, &failedReads)
 					time.Sleep(time.Duration(40+r.IntN(80)) * time.Millisecond)
 				}
 			}(rd)
@@ -291,7 +325,7 @@ func (rn *runner) runSchedule(sc schedule, worker int) {
 		for rep := 0; rep < 6; rep++ {
 			got := map[key]int64{}
 			okAll := true
-			for w := 0; w < nW; w++ {
+			for w := 0; w <= nW; w++ { // the writers' series and the nemesis' series
 				g, ok := rn.scan(cl, rec, 200, w, phase, step, &okReads, &failedReads)
 				if !ok {
 					okAll = false
@@ -414,12 +448,26 @@ func (rn *runner) runSchedule(sc schedule, worker int) {
 				pi.FaultTick[0] = tick()
 				cl.Stores[victim].Kill()
 				c.Distinct("kill-during-flush-point", pi.FlushPoint)
+			case killAfterIdle:
+				// one acknowledged point into the second shard of the partition, which is then left
+				// idle while the writers keep the first shard busy: after write-cold-duration (5 s)
+				// only the idle shard is flushed; then the store is SIGKILLed
+				if !writeCold(20) {
+					pi.FlushPoint = "(idle-shard write not acknowledged: plain kill)"
+				}
+				time.Sleep(7500 * time.Millisecond)
+				pi.FaultTick[0] = tick()
+				cl.Stores[victim].Kill()
 			case "pause":
 				cl.Stores[victim].Pause()
 			}
 			pi.FaultTick[1] = tick()
 		}
-		runPhase(c.Pick(25, 40), inject)
+		nOps := c.Pick(25, 40)
+		if f.Kind == killAfterIdle {
+			nOps = 120 // the writers must stay busy for the 7.5 s the idle shard needs to be flushed
+		}
+		runPhase(nOps, inject)
 		down = victim
 		step = stepQuietDown
 		okQ := quiesce(label + "(one store down)")
@@ -692,9 +740,12 @@ func compress(kops []op) []map[string]any {
 	return out
 }
 
-func genSchedule(r *rand.Rand, idx, n int) schedule {
+func genSchedule(r *rand.Rand, idx, n int, thorough bool) schedule {
 	sc := schedule{Index: idx}
 	kinds := []string{"kill", "kill", "pause", "kill-during-flush"}
+	if thorough {
+		kinds = append(kinds, killAfterIdle)
+	}
 	for i := 0; i < n; i++ {
 		f := fault{Kind: kinds[r.IntN(len(kinds))], Target: []string{"leader", "follower"}[r.IntN(2)]}
 		if f.Kind == "kill-during-flush" {
@@ -732,7 +783,7 @@ func main() {
 	sem <- 0
 	sem <- 1
 	for i := 0; i < n; i++ {
-		sc := genSchedule(c.Rand(uint64(500+i)), i, nf)
+		sc := genSchedule(c.Rand(uint64(500+i)), i, nf, c.Thorough())
 		if i == 0 {
 			// the first schedule always covers: the leader dies inside a flush before the data file
 			// exists; after it rejoined its successor is killed (the rejoined store serves again);
@@ -740,6 +791,12 @@ func main() {
 			sc.Faults[0] = fault{Kind: "kill-during-flush", Target: "leader", Point: "flush-after-index-flush"}
 			sc.Faults[1] = fault{Kind: "kill", Target: "leader"}
 			sc.Faults[2] = fault{Kind: "kill", Target: "follower"}
+		}
+		if i == 1 {
+			// second schedule (thorough): the leader dies after only the idle shard of its
+			// partition was flushed; after it rejoined its successor is killed
+			sc.Faults[0] = fault{Kind: killAfterIdle, Target: "leader"}
+			sc.Faults[1] = fault{Kind: "kill", Target: "leader"}
 		}
 		w := <-sem
 		wg.Add(1)
